@@ -431,8 +431,12 @@ class Color(NamedTuple):
                 raise ColorParseError(
                     f"expected three components in {original_color!r}"
                 )
-            red, green, blue = components
-            triplet = ColorTriplet(int(red), int(green), int(blue))
+            try:
+                triplet = ColorTriplet(*(int(component) for component in components))
+            except ValueError:
+                raise ColorParseError(
+                    f"invalid color component in {original_color!r}"
+                ) from None
             if not all(component <= 255 for component in triplet):
                 raise ColorParseError(
                     f"color components must be <= 255 in {original_color!r}"
